@@ -304,6 +304,15 @@ class Report:
         self.assumptions = []
         self._known_db = load_known(prop)
         self._nrep = 0
+        # replay files of earlier runs of this check/tier are stale
+        d = os.path.join(VERIF, "replays", prop)
+        if os.path.isdir(d):
+            for f in os.listdir(d):
+                if f.startswith(tier + "_"):
+                    try:
+                        os.remove(os.path.join(d, f))
+                    except OSError:
+                        pass
 
     def violation(self, signature, what, witness):
         """signature: stable identifier of the failing input/site (used for known findings)."""
